@@ -255,3 +255,6 @@ func verifLemmaPhredEncDec(q Qphred, e Encoding) Qphred { return e.DecodeToQphre
 //@   requires -5 <= q && q <= 62
 //@   ensures  result == q
 func verifLemmaSolexaEncDec(q Qsolexa) Qsolexa { return Solexa.DecodeToQsolexa(q.Encode(Solexa)) }
+
+//@ func (Alphabet).Moltype
+//@   pure
